@@ -56,6 +56,8 @@ def run(rep, tier, seed, budget):
             x = dech.concrete_selfies(m, toks)
             nn = x.count("[nop]")
             col.count("with_nop" if nn else "without_nop")
+            if r1[0] == "exc" and r2[0] == "exc":
+                col.count("both_sides_raise_non_DecoderError")
             if nn:
                 col.nontrivial((r1[0], str(r1[1:])[:80], tuple(i for i, t in enumerate(toks) if model_value(m, t) == "[nop]")))
                 col.sample({"x": x, "result": str(r1)[:80]})
@@ -71,6 +73,8 @@ def run(rep, tier, seed, budget):
             rep.parts.append({"name": name, "complete": False, "paths": 0, "bounds": {"N": n}, "claim": "not started (time budget)"})
             continue
         res = driver.explore_parallel(level(n), left * 0.8)
+        if res.col.counts.get("both_sides_raise_non_DecoderError", 0) > 0.5 * max(1, res.stats.paths):
+            res.col.error("vacuous differential: on most paths both decoder calls raise an exception other than DecoderError (C08's subject); the comparison says nothing")
         rep.add_part(name, res, {"alphabet": A13, "N_symbols": n, "table": "keys C,? free in 0..9"})
 
     # padding clause: selfies_to_encoding / encoding_to_selfies / decoder, pad length symbolic
